@@ -84,6 +84,8 @@ impl Number<'_> {
                 }
             } else {
                 // disguised fast path
+                #[cfg(lexical_verif)]
+                lexical_util::verif::hit(lexical_util::verif::PARSE_FAST_DISGUISED);
                 let shift = self.exponent - max_exponent;
                 let int_power = F::int_pow_fast_path(shift as usize, radix);
                 let mantissa = self.mantissa.checked_mul(int_power)?;
